@@ -50,6 +50,25 @@ def cases(tier, seed):
             if h == '$v':
                 e = '($v := a; %s)' % e
             add(e, d, ('kind',))
+    # predicates whose NUMBER depends on the context item (each item is tested against its own value)
+    pdocs = [
+        {'a': [{'b': 1, 'pos': 0}, {'b': 2, 'pos': 1}, {'b': 3, 'pos': 2}]},
+        {'a': [{'b': 1, 'pos': 0}, {'b': 2, 'pos': 5}, {'b': 3, 'pos': 2}, {'b': 4, 'pos': -1}, {'b': 5}]},
+        {'a': [{'b': 1, 'pos': 1.5}, {'b': 2, 'pos': [0, 1]}, {'b': 3, 'pos': -1}, {'b': 4, 'pos': 'x'}]},
+        {'a': [0, 1, 7, 3]}, {'a': [3, 2, 1, 0]}, {'a': [-1, -1, -1]}, {'a': [0.5, 1.9, 2.1, -0.5]},
+        [0, 1, 7, 3], [1, 1, 1], [-4, -3, -2, -1],
+    ]
+    ppreds = ['pos', 'b - 1', 'b', '-b', 'pos + 0.5', '$', '$ - 1', '-$', 'pos ? pos : false', 'b > 1 ? 0 : true', '$ < 2 ? 0 : true',
+              '[pos]', '[pos, 0]', '[$]', 'pos = 1 ? 1', '$count($string($))', 'b = 2 or pos', '$number($)', 'pos[0]']
+    pheads = ['a', '$', '$.a', '(a)', '$$.a', '$v', 'a[]', '$append(a, [])', '$reverse(a)']
+    for h, p in itertools.product(pheads, ppreds):
+        for d in pdocs:
+            e = '%s[%s]' % (h, p)
+            if h == '$v':
+                e = '($v := a; %s)' % e
+            add(e, d, ('per-item-number',))
+            if tier != 'quick' or rng.random() < 0.3:
+                add(e + '[%s]' % rng.choice(ppreds + preds), d, ('per-item-number', 'stacked'))
     # stacked predicates (<= 3), on name steps and on other heads
     for i in range(1200 if tier == 'quick' else 60000):
         h = rng.choice(heads)
@@ -66,7 +85,7 @@ def cases(tier, seed):
 def run(tier, seed, replay=None):
     ck = Check('C02', tier, seed, '', 'exhaustive array lengths 0..5 x positions -7..7 step 0.5 (as literal, computed, index array, '
                'taken from the document, inside a path, on a parenthesised path, on a constructor); every predicate kind on every kind of head; '
-               'stacked predicates <= 3; distinct = distinct (expression, document); non-trivial = compiles and model has a verdict')
+               'predicates whose number depends on the context item (member values, $, conditionals) on 9 heads x 10 documents; stacked predicates <= 3; distinct = distinct (expression, document); non-trivial = compiles and model has a verdict')
     if not ck.build():
         return ck.finish()
     proofs_ok = ck.proof_status()
